@@ -671,8 +671,10 @@ func (x *fleetExec) deliver(e engine.Event, nd *knode, sig string) bool {
 		if x.prop == "C15" && (m.form == "bin" || m.form == "binomit") && e.S == "merge" && !m.model.IsEmpty() && nd.twin == nil && nd.replica == nil {
 			var err error
 			x.lib("DecodeAndMergeWith", sig, func() { err = nd.real.DecodeAndMergeWith(append([]byte(nil), m.data...)) })
+			x.st.Probe("plain-encoding-offered-to-exact-sketch")
+			// refused or not, the sketch is now in a state no property describes: only Clear brings it back
+			nd.dirty = true
 			if err != nil {
-				nd.dirty = true
 				x.st.Fault("refused-decode-left-partial-state")
 			}
 		}
